@@ -114,6 +114,18 @@ def run(run):
             run.violated("R2", "source-call-stops-search", "the search no longer stops at another call to the source symbol (`target == source_symbol => continue`)", site)
         else:
             run.check("R2", "source-call-stops-search", src_ok, "a further call to the source must skip the edge without enqueuing its target", site)
+        # the sink/source tests must be applied to EVERY outgoing edge: they may not depend on the visited set
+        for (node, conds) in T.paths_to(f_reach["body"], lambda x: x.get("k") == "If"):
+            c = sy.ev(node["c"], env)
+            if not (is_call(c, "eq") and any(x[0] == "var" and x[1] == "sink_symbol" for x in c[2])):
+                continue
+            dep = []
+            for cd in conds:
+                if cd[0] == "if":
+                    ct = sy.ev(cd[1], env)
+                    if any(isinstance(x, tuple) and x and x[0] == "var" and "visited" in x[1] for x in S.subterms(ct)) or any(is_call(x, ("contains", "insert")) and "HashSet" in x[3] for x in S.subterms(ct)):
+                        dep.append(fmt(ct))
+            run.check("R2", "sink-test-for-every-edge", not dep, "the test for a sink call is only reached depending on the visited set (%s): a sink call whose return node was already reached along another path is never recognised" % dep[:1], F.loc(node))
         # pushes guarded by visited set
         n = 0
         for (node, conds) in T.paths_to(f_reach["body"], lambda x: T.is_call(x, "push")):
@@ -154,7 +166,7 @@ def run(run):
         # pair component provenance: (source, sink) = config pair (0, 1)
         def comp(t):
             for x in S.subterms(t):
-                if isinstance(x, tuple) and x and x[0] == "field" and x[2] in ("0", "1") and x[1][0] == "field" and x[1][2] == "Some.0":
+                if isinstance(x, tuple) and x and x[0] == "field" and x[2] in ("0", "1") and (x[1][0] == "elem" or (x[1][0] == "field" and x[1][2] == "Some.0")):
                     return int(x[2])
             return None
         # arg2 is the call target, equal to source tid by a dominating guard
